@@ -11,7 +11,8 @@ from ..worker import jsonable
 
 PROPERTY = "C07"
 MAXI = 2**53 - 1
-RULE = ("exhaustive grid: array lengths 0..7 x each of start/end/step in {omitted, 0, +-1, +-2, +-3, +-len, +-(len+-1), +-5, +-7, +-(2^53-1)} "
+RULE = ("[also: arrays of 2047-10007 elements x 60 slices and 10 indices each] "
+        "exhaustive grid: array lengths 0..7 x each of start/end/step in {omitted, 0, +-1, +-2, +-3, +-len, +-(len+-1), +-5, +-7, +-(2^53-1)} "
         "(step also 0) and every index from the same set, plus random triples on lengths up to 300 (thorough: more), each rendered with "
         "random legal spelling (omitted parts, trailing colon, blank space); the same selectors applied to objects with numeric-looking "
         "keys, strings and scalars must select nothing. Oracle = verbatim Normalize/Bounds pseudo-code of RFC 9535 2.3.4.2.2. Checked: "
@@ -40,8 +41,13 @@ def check(jp, rec, text, doc, want_idx, meta):
     got = [(n.location, id(n.value)) for n in o[1]]
     want = [((i,), id(doc[i])) for i in want_idx] if isinstance(doc, list) else []
     if got != want:
-        rec.violation(meta["what"], dict(meta, query=text, expected_locations=[[i] for i in want_idx] if isinstance(doc, list) else [],
-                                         observed_locations=[list(l) for l, _ in got]))
+        exp_l = [[i] for i in want_idx] if isinstance(doc, list) else []
+        obs_l = [list(l) for l, _ in got]
+        if len(exp_l) + len(obs_l) > 60:
+            first = next((k for k, (a_, b_) in enumerate(zip(exp_l, obs_l)) if a_ != b_), min(len(exp_l), len(obs_l)))
+            meta = dict(meta, expected_count=len(exp_l), observed_count=len(obs_l), first_difference_at=first)
+            exp_l, obs_l = exp_l[max(0, first - 2):first + 3], obs_l[max(0, first - 2):first + 3]
+        rec.violation(meta["what"], dict(meta, query=text, expected_locations=exp_l, observed_locations=obs_l))
 
 
 def plan(tier, seed, nproc, scale):
@@ -105,6 +111,26 @@ def run_shard(spec, rec):
                 for tmpl in ("$[?@[%s] == 'a']", "$[?length(@[%s]) == 1]", "$[?@[%s] != 0]"):
                     want_idx = [0] if "!=" in tmpl else []   # nothing != 0 holds, so the child is selected
                     check(jp, rec, tmpl % sel, [doc], want_idx, {"what": "non-array-in-filter", "document": jsonable([doc])})
+    # large arrays: the same arithmetic on thousands of elements (power-of-two lengths and their neighbours)
+    big = [2047, 2048, 2049, 4096, 5000, 10007]
+    for bi, n in enumerate(big):
+        if bi % min(spec["shards"], len(big)) != spec["shard"] % min(spec["shards"], len(big)) or spec["shard"] >= len(big):
+            continue
+        doc = [[i] for i in range(n)]
+        parts = [None, 0, 1, -1, n, -n, n - 1, 1 - n, 2048, -2048, 2049, n // 2, -(n // 2), 4097, MAXI, -MAXI]
+        for a, b, c in [(None, None, -1), (None, None, 1), (None, None, -2), (None, None, 2), (None, 0, -1), (n - 1, None, -1), (n, 0, -1), (None, None, -3), (None, None, 2048), (None, None, -2048),
+                        (None, None, -2049), (0, None, 1), (1, None, None), (None, -1, None), (-1, None, -1), (None, None, 4096), (2048, None, -1), (2049, 0, -1), (None, 2048, None), (2047, 2049, None)] + \
+                       [(R.choice(parts), R.choice(parts), R.choice([None, 1, -1, 2, -2, 3, -3, 7, -7, 2048, -2048, 1000, -1000])) for _ in range(40)]:
+            st = G.Style(R, feat=rec.features)
+            text = "$[" + render_slice(st, a, b, c) + "]"
+            want = sem.slice_indices_capped(n, a, b, c)
+            rec.case(("big-slice", n, a, b, c), bool(want))
+            rec.feat("big-array")
+            check(jp, rec, text, doc, want, {"what": "slice", "length": n, "slice": [a, b, c]})
+        for i in (0, -1, n - 1, -n, n, -n - 1, 2048, -2048, 2047, -2049):
+            j = i if i >= 0 else n + i
+            check(jp, rec, "$[%d]" % i, doc, [j] if 0 <= j < n else [], {"what": "index", "length": n, "index": i})
+            rec.case(("big-index", n, i), True)
     # random
     for _ in range(spec["random"]):
         n = R.choice([R.randint(0, 12), R.randint(0, spec["maxlen"])])
